@@ -19,6 +19,7 @@ import JanetModel.Lib.ArrC
 import JanetModel.Lib.Boot2
 import JanetModel.Lib.BufPushC
 import JanetModel.Lib.StrReplC
+import JanetModel.Lib.Boot3
 open Driver JanetModel.Lib
 
 inductive V where
@@ -597,15 +598,15 @@ def call (f : String) (args : List V) : Out :=
   | "partition", [.int n, x] =>
     if n < 1 then .skip else
     (match x with
-     | .seq _ l => .ok (.seq 1 ((partition n.toNat l).map (V.seq 0))) args
-     | .str _ b => .ok (.seq 1 ((partition n.toNat b).map (V.str 0))) args
+     | .seq _ l => withMirror (Boot.partition n l) (some (partition n.toNat l)) args (.ok (.seq 1 ((partition n.toNat l).map (V.seq 0))) args)
+     | .str _ b => withMirror (Boot.partition n b) (some (partition n.toNat b)) args (.ok (.seq 1 ((partition n.toNat b).map (V.str 0))) args)
      | _ => .skip)
   | "interleave", cols =>
     (match cols.mapM indexedOf with
      | some cs => .ok (.seq 1 (interleave cs)) args
      | none => .skip)
   | "interpose", [sep, .seq _ l] => .ok (.seq 1 (interpose sep l)) args
-  | "distinct", [.seq _ l] => .ok (.seq 1 (distinct l)) args
+  | "distinct", [.seq _ l] => withMirror (Boot.distinct l) (some (distinct l)) args (.ok (.seq 1 (distinct l)) args)
   | "frequencies", [.seq _ l] => .ok (.tbl 1 ((frequencies l).map (fun kv => (kv.1, V.int kv.2)))) args
   | "merge", colls =>
     (match colls.mapM (fun v => match v with | .tbl _ l => some l | _ => none) with
